@@ -34,7 +34,7 @@ pub fn pcg32_expand(x: u64, len: usize) -> Vec<u8> {
     out
 }
 
-fn inv_odd(a: u64) -> u64 {
+pub fn inv_odd(a: u64) -> u64 {
     // Newton iteration for the inverse of an odd number modulo 2^64
     let mut x = a;
     for _ in 0..6 {
@@ -43,7 +43,7 @@ fn inv_odd(a: u64) -> u64 {
     x
 }
 
-fn unxorshift(mut z: u64, k: u32) -> u64 {
+pub fn unxorshift(mut z: u64, k: u32) -> u64 {
     // invert z ^= z >> k
     let mut s = k;
     while s < 64 {
@@ -68,7 +68,71 @@ pub fn splitmix_argument_for(j: u64, y: u64) -> u64 {
     splitmix_unmix(y).wrapping_sub(j.wrapping_mul(crate::xoshiro::SPLITMIX_PHI))
 }
 
+/// SplitMix64 counters (state *before* the call) for which a chosen intermediate value of the
+/// finaliser of next_u64 (stage 0..=4: after the first xor-shift, the first multiply, the second
+/// xor-shift, the second multiply, the final xor-shift) equals `v`.
+pub fn splitmix_counter_for_stage64(stage: usize, v: u64) -> u64 {
+    let (c1, c2) = (0xbf58476d1ce4e5b9u64, 0x94d049bb133111ebu64);
+    let mut z = v;
+    if stage >= 4 {
+        z = unxorshift(z, 31);
+    }
+    if stage >= 3 {
+        z = z.wrapping_mul(inv_odd(c2));
+    }
+    if stage >= 2 {
+        z = unxorshift(z, 27);
+    }
+    if stage >= 1 {
+        z = z.wrapping_mul(inv_odd(c1));
+    }
+    z = unxorshift(z, 30);
+    z.wrapping_sub(crate::xoshiro::SPLITMIX_PHI)
+}
+
+/// The same for the 32-bit finaliser of next_u32 (stage 0..=3: after the first xor-shift, the first
+/// multiply, the second xor-shift, the second multiply).
+pub fn splitmix_counter_for_stage32(stage: usize, v: u64) -> u64 {
+    let (d1, d2) = (0x62a9d9ed799705f5u64, 0xcb24d0a5c88c35b3u64);
+    let mut z = v;
+    if stage >= 3 {
+        z = z.wrapping_mul(inv_odd(d2));
+    }
+    if stage >= 2 {
+        z = unxorshift(z, 28);
+    }
+    if stage >= 1 {
+        z = z.wrapping_mul(inv_odd(d1));
+    }
+    z = unxorshift(z, 33);
+    z.wrapping_sub(crate::xoshiro::SPLITMIX_PHI)
+}
+
 pub fn self_check() -> Result<(), String> {
+    // stage inverses: recompute forwards
+    for (st, v) in [(0usize, 0xffff_ffffu64), (1, 1 << 32), (2, 0x1_2345_6789), (3, u64::MAX), (4, 0)] {
+        let x = splitmix_counter_for_stage64(st, v);
+        let z0 = x.wrapping_add(crate::xoshiro::SPLITMIX_PHI);
+        let a1 = z0 ^ (z0 >> 30);
+        let a2 = a1.wrapping_mul(0xbf58476d1ce4e5b9);
+        let a3 = a2 ^ (a2 >> 27);
+        let a4 = a3.wrapping_mul(0x94d049bb133111eb);
+        let a5 = a4 ^ (a4 >> 31);
+        if [a1, a2, a3, a4, a5][st] != v {
+            return Err(format!("splitmix stage inverse (64) failed for stage {} v={:#x}", st, v));
+        }
+    }
+    for (st, v) in [(0usize, 7u64), (1, 1 << 33), (2, 0x1_ffff_ffff), (3, u64::MAX)] {
+        let x = splitmix_counter_for_stage32(st, v);
+        let z0 = x.wrapping_add(crate::xoshiro::SPLITMIX_PHI);
+        let b1 = z0 ^ (z0 >> 33);
+        let b2 = b1.wrapping_mul(0x62a9d9ed799705f5);
+        let b3 = b2 ^ (b2 >> 28);
+        let b4 = b3.wrapping_mul(0xcb24d0a5c88c35b3);
+        if [b1, b2, b3, b4][st] != v {
+            return Err(format!("splitmix stage inverse (32) failed for stage {} v={:#x}", st, v));
+        }
+    }
     for (j, y) in [(1u64, 0u64), (3, 0xdeadbeef00000000), (8, 0x00000000ffffffff), (2, u64::MAX)] {
         let x = splitmix_argument_for(j, y);
         let e = splitmix_expand(x, 8 * j as usize);
